@@ -122,6 +122,8 @@ def gen_program(rng: random.Random) -> dict:
             else:
                 sub = rng.random() < 0.3
                 fname = ("sub/" if sub else "") + f"blob{len(files)}.{rng.choice(['bin', 'dat', 'chr'])}"
+                if rng.random() < 0.2:
+                    fname = rng.choice(["./", "sub/../", "./sub/"]) + fname      # every / and . of the path becomes one _
                 # lengths chosen to end before / at / after the end of the current bank
                 room = 0x10000 - (here() & 0xFFFF)
                 ln = rng.choice([0, 1, 2, 7, 255, 256, room - 1, room, room + 1, room + 2, 0x8000, 0x8001, 70000, rng.randrange(0, 4000)])
